@@ -5,6 +5,7 @@ import Katib.Drv.Sim
 import Katib.Drv.C19
 import Katib.Drv.C15
 import Katib.Drv.C10
+import Katib.Drv.C17
 import Katib.Oracle.Sim
 open Katib Katib.Drv
 
@@ -17,6 +18,7 @@ def handle (toks : List String) : String :=
   | "C19" :: r => handleC19 r
   | "C15" :: r => handleC15 r
   | "C10" :: r => handleC10 r
+  | "C17" :: r => handleC17 r
   | _ => "bad-op"
 
 /-- oracle verdict for one `op => observed-output` line -/
@@ -28,6 +30,7 @@ def handleOracle (toks out : List String) : String :=
   | "C19" :: r => oracleLineC19 r out
   | "C15" :: r => oracleLineC15 r out
   | "C10" :: r => oracleLineC10 r out
+  | "C17" :: r => oracleLineC17 r out
   | _ => "bad-op"
 
 def splitArrow (toks : List String) : List String × List String :=
